@@ -311,3 +311,127 @@ class BusRig:
         for c in self.clients:
             if c.connected or c.transport.peek():
                 c.pump()
+
+
+# ---------------------------------------------------------------------------
+# real clients attached to the real bus through scheduler-controlled links
+
+class Link:
+    """One client <-> bus connection; bytes travel only when the scheduler says so."""
+
+    def __init__(self, client_proto, server_proto):
+        self.c = client_proto
+        self.s = server_proto
+        self.c2s = b''
+        self.s2c = b''
+
+    def collect(self):
+        self.c2s += self.c.transport.take()
+        self.s2c += self.s.transport.take()
+
+    def pending(self):
+        self.collect()
+        out = []
+        if self.c2s and not self.s.transport.disconnected:
+            out.append('c2s')
+        if self.s2c and not self.c.transport.disconnected:
+            out.append('s2c')
+        return out
+
+    def move(self, direction, n):
+        """Deliver up to n bytes (n=0: up to the end of the first queued D-Bus message, or the
+        whole queue while it still holds handshake lines)."""
+        from . import refcodec as R
+        self.collect()
+        buf = self.c2s if direction == 'c2s' else self.s2c
+        if n == 0:
+            if len(buf) >= 16 and buf[:1] in (b'l', b'B') and buf[3:4] == b'\x01':
+                n = min(len(buf), R.message_length(buf[:16]))
+            else:
+                n = len(buf)
+        chunk, rest = buf[:n], buf[n:]
+        if direction == 'c2s':
+            self.c2s = rest
+            return deliver(self.s, chunk)
+        self.s2c = rest
+        return deliver(self.c, chunk)
+
+
+class BusNet:
+    """The real Bus plus real DBusClientConnections, wired through Links."""
+
+    def __init__(self):
+        from twisted.internet import task
+        import txdbus.client as C
+        from txdbus import authentication as AU
+        self.rig = BusRig()
+        self.C = C
+        self.clock = task.Clock()
+        self._saved_reactor = C.reactor
+        C.reactor = self.clock
+        self.links = []
+        self.conns = []
+        self.connect_results = []
+
+        class AnonOnly(AU.BusAuthenticator):
+            # keeps the cookie mechanism away from the real home directory
+            authenticators = {b'ANONYMOUS': AU.BusAnonymousAuthenticator}
+        B = self.rig.B
+
+        class Proto(B.BusProtocol):
+            authenticator = AnonOnly
+        self._proto_cls = Proto
+
+    def add_client(self):
+        f = self.C.DBusClientFactory()
+        res = []
+        f.getConnection().addBoth(res.append)
+        conn = f.buildProtocol(None)
+        conn.makeConnection(FakeTransport())
+        sp = self._proto_cls()
+        sp.factory = self.rig.factory
+        sp.makeConnection(FakeTransport())
+        link = Link(conn, sp)
+        self.links.append(link)
+        self.conns.append(conn)
+        self.connect_results.append(res)
+        return conn
+
+    def pending(self):
+        out = []
+        for i, l in enumerate(self.links):
+            for d in l.pending():
+                out.append((i, d))
+        return out
+
+    def run_fifo(self, limit=10000):
+        """Deliver everything, whole queues at a time, until nothing is in flight."""
+        n = 0
+        while n < limit:
+            p = self.pending()
+            if not p:
+                return True
+            i, d = p[0]
+            self.links[i].move(d, 1 << 30)
+            n += 1
+        return False
+
+    def run_schedule(self, schedule, limit=20000):
+        """schedule: list of [choice index, nbytes]; cycles when exhausted."""
+        k = 0
+        n = 0
+        trace = []
+        while n < limit:
+            p = self.pending()
+            if not p:
+                return trace
+            who, nbytes = schedule[k % len(schedule)] if schedule else (0, 1 << 30)
+            k += 1
+            i, d = p[who % len(p)]
+            self.links[i].move(d, nbytes)
+            trace.append((i, d))
+            n += 1
+        raise RigFailure('schedule did not quiesce')
+
+    def close(self):
+        self.C.reactor = self._saved_reactor
